@@ -42,6 +42,11 @@ func runBatchCase(c batchCase) (string, string, cmdmodel.Result) {
 		// the reference semantics terminate after RefSteps steps; no statement expands to hundreds of script lines per step
 		return "no-termination", fmt.Sprintf("the script is still running after %d lines under the cmd.exe model; the reference semantics finish after %d steps\n--- output so far\n%.600s\n--- script\n%s", limit, c.RefSteps, res.Stdout, strings.ReplaceAll(tr.Script, "\r\n", "\n")), res
 	}
+	if cls := res.Inconclusive; strings.HasPrefix(cls, "stray-paren") || strings.HasPrefix(cls, "unsupported:command:)") || strings.HasPrefix(cls, "syntax:") {
+		// execution reached a ")" outside any block or text that is no command: cmd.exe's documented rules give the
+		// script no meaning from here on (in practice: an error message, or branches that run although another one was taken)
+		return "malformed-at-run-time", fmt.Sprintf("execution under the cmd.exe model reaches text that is no command (%s)\n--- output so far\n%.600s\n--- script\n%s", cls, res.Stdout, strings.ReplaceAll(tr.Script, "\r\n", "\n")), res
+	}
 	if res.Inconclusive != "" {
 		return "inconclusive:" + res.Inconclusive, res.Inconclusive, res
 	}
@@ -76,7 +81,7 @@ func c05NonTrivial(res cmdmodel.Result) bool {
 
 func TestC05(t *testing.T) {
 	r, e := start(t, "C05",
-		"the generators of C01-C04 under a cmd profile (values within 32 bit, strings over [A-Za-z0-9_.,:+@#] plus single inner blanks, never the words on/off), biased to what the property names: sequences and nestings of loops and conditionals, slices crossing 9 -> 10 elements, several functions; plus the calibration corpus (every literal success program of the repository's shared test files with a literal expected output). The emitted Batch text is executed under an executable cmd.exe model (parse-time % expansion per line as read, run-time ! expansion, blocks read as one command, goto = abandon block + forward-then-wrap label search, call/exit /B frames, numeric-vs-string IF, 32-bit set /A). Oracle: stdout lines and exit status equal the reference interpreter's (calibration corpus: the suite's own expectation); a script still running after 400000 + 400 x (reference steps) lines, where the reference semantics finish, does not terminate. Non-trivial = the run executes a goto out of a parenthesised block and a call, or a numeric IF with a two-digit operand; distinct by source text.",
+		"the generators of C01-C04 under a cmd profile (values within 32 bit, strings over [A-Za-z0-9_.,:+@#] plus single inner blanks, never the words on/off), biased to what the property names: sequences and nestings of loops and conditionals, slices crossing 9 -> 10 elements, several functions; plus the calibration corpus (every literal success program of the repository's shared test files with a literal expected output). The emitted Batch text is executed under an executable cmd.exe model (parse-time % expansion per line as read, run-time ! expansion, blocks read as one command, goto = abandon block + forward-then-wrap label search, call/exit /B frames, numeric-vs-string IF, 32-bit set /A). Oracle: stdout lines and exit status equal the reference interpreter's (calibration corpus: the suite's own expectation); a script still running after 400000 + 400 x (reference steps) lines, where the reference semantics finish, does not terminate. A run that reaches a ')' outside any block, or text that is no command, is malformed at run time (never seen on a correct tree). Non-trivial = the run executes a goto out of a parenthesised block and a call, or a numeric IF with a two-digit operand; distinct by source text.",
 		[]string{"fidelity of the cmd.exe model is an assumption, bounded by calibration on the suite's programs whose Windows outcome upstream CI establishes", "runs that reach a construct outside the model (set /p, for over a command or file, program calls, if exist, substring of an undefined variable, numbers beyond 32 bit) are inconclusive, never verdicts", "cases in which an intermediate value leaves the int32 range are discarded (the property fixes 32-bit integers as the domain)"})
 	defer r.Flush()
 	repo := os.Getenv("VERIF_REPO")
